@@ -415,7 +415,7 @@ func TestC11(t *testing.T) {
 		"Cast reference computed through math/big (truncation toward zero, nearest-even to floats), not through Go's generic conversion; source types outside the operator's own gate (int8/uint8) may be refused")
 	defer reportKnownFindings("C11")
 
-	check(t, "ops", 40000, 150000, func(rt *rapid.T) {
+	check(t, "ops", 40000, 400000, func(rt *rapid.T) {
 		c := c11Gen(rt)
 		res := runOp(c.op, c.node, cloneTs(c.ins))
 		nontrivial := !c.valid
